@@ -1384,6 +1384,12 @@ func (stepEngine) Decode(b []byte) (interface{}, error) {
 // version of the case for the replay file.
 // Preflight enumerates the finite (recursion form x limit) grid completely.
 func (e stepEngine) Preflight(st *Stats) (*Violation, interface{}) {
+	switch preflightPart {
+	case 1:
+		return e.preflightInfinite(st)
+	case 2:
+		return nil, nil
+	}
 	nf := len(recursionForms("r"))
 	for f := 0; f < nf; f++ {
 		for L := 2; L <= 14; L++ {
@@ -1432,6 +1438,10 @@ func (e stepEngine) Preflight(st *Stats) (*Violation, interface{}) {
 		}
 	}
 	st.Probe("copy_grid_cells_enumerated")
+	return nil, nil
+}
+
+func (e stepEngine) preflightInfinite(st *Stats) (*Violation, interface{}) {
 	// every construct that never ends on its own, entered through every route,
 	// with a buffered and an unbuffered channel: a panicking watchdog must end it
 	for si, shape := range infiniteShapes(txText(si0)) {
